@@ -38,7 +38,7 @@ MANIFEST = {
 }
 MANIFEST["text"] += " " + (
     'Added after the seeding waves: in one-shot runs no postponed entry may have a successor; known findings D16 (two forms) and D19 are recognised by structural predicates on the pruned and the unpruned lattice. Third session: at the moment of expansion every live edge candidate scheduled for the round must actually be handed to the successor generation (a probe on next(); staying on the edge is unconditional); at the end of every width history of the emitting-only configurations one more widening to a width no column reaches must coincide with the unpruned run.')
-BUDGET = {"quick": 420, "thorough": 3000}
+BUDGET = {"quick": 900, "thorough": 3000}
 RULE = ("states = synthetic columns / distinct seam states / lattice layers inspected, transitions = prune calls, seam operations and "
         "matcher runs, traces validated = pruned-vs-unpruned and widening comparisons; non-trivial = some candidate was actually "
         "postponed; outcomes = canonical results.")
